@@ -279,6 +279,9 @@ FRAGS = [
     '<dtml-var error_type></dtml-try></dtml-in>|<dtml-try><dtml-raise '
     'expr="exc">m</dtml-raise><dtml-except LookupError>L<dtml-except>o'
     '</dtml-try>',
+    # 28 tags that render nothing, between literal text
+    'pre<dtml-comment>hidden <dtml-var x></dtml-comment>mid<dtml-call hook>'
+    'post:<dtml-var x>',
     # 26 a sort_expr that may give no key at all, with reverse
     '<dtml-in seq sort_expr="sk" reverse><dtml-var a>;</dtml-in>|'
     '<dtml-in pairs sort_expr="sk3" reverse_expr="rv">'
